@@ -152,6 +152,11 @@ func worker(t *testing.T, p *Prop, tier string, base uint64, from, to int, outPa
 	var enum [][]uint32
 	if p.Enumerate != nil {
 		enum = p.Enumerate(tier)
+		if want := os.Getenv("SIM_ENUM_LEN"); want != "" && want != fmt.Sprint(len(enum)) {
+			out := workerOut{Property: p.ID, Fault: fmt.Sprintf("enumeration is not deterministic: this worker computed %d cases, the parent %s", len(enum), want)}
+			writeJSON(outPath, &out)
+			return
+		}
 	}
 	seen := map[uint64]bool{}
 	race := newRaceWatch()
@@ -592,6 +597,9 @@ func parentRun(p *Prop, tier string, base uint64, nworkers int) int {
 			fmt.Sprintf("-sim.from=%d", j.from), fmt.Sprintf("-sim.to=%d", j.to), "-sim.out="+j.out,
 			fmt.Sprintf("-sim.deadline=%d", deadline.Unix()))
 		cmd.Env = append(cmd.Env, "SIM_RACE_LOG="+racelog, "GORACE=halt_on_error=0 exitcode=0 log_path="+racelog)
+		if p.Enumerate != nil {
+			cmd.Env = append(cmd.Env, fmt.Sprintf("SIM_ENUM_LEN=%d", total))
+		}
 		j.buf = &bytes.Buffer{}
 		cmd.Stdout, cmd.Stderr = j.buf, j.buf
 		if err := cmd.Start(); err != nil {
